@@ -161,6 +161,22 @@ def seq_method(V, s, name, args, kwargs, st, node):
         V.need_axiom('count:' + s.t.elem.key())
         return SV(INT, r)
     if name == 'index' and len(args) == 1:
+        if isinstance(s, SV) and isinstance(s.t.elem, ObjT) and isinstance(args[0], SV) and args[0].t == STR:
+            # list.index(text) over objects with a custom __eq__(str): the first element equal to it
+            from .values import FAMILY_EQ_STR
+            eqf = FAMILY_EQ_STR.get(s.t.elem.family)
+            if eqf is None:
+                V.may_raise(st, z3.BoolVal(False), 'ValueError', 'list.index: no element equals a str', node)
+                raise Unsupported('index of str in object list')
+            f = V.uf('seq.index_eq[%s]' % s.t.elem.family, [sort_of(s.t), z3.StringSort()], z3.IntSort())
+            i = f(s.z, args[0].z)
+            j = z3.Int(fresh_name('ix'))
+            n = z3.Length(s.z)
+            exists = z3.Exists([j], z3.And(j >= 0, j < n, eqf(s.z[j], args[0].z)))
+            V.may_raise(st, exists, 'ValueError', 'list.index(x): x not in list', node)
+            st.assume(z3.And(i >= 0, i < n, eqf(s.z[i], args[0].z)))
+            st.assume(z3.ForAll([j], z3.Implies(z3.And(j >= 0, j < i), z3.Not(eqf(s.z[j], args[0].z)))))
+            return SV(INT, i)
         if isinstance(s, SV):
             x = pack(args[0], s.t.elem)
             V.may_raise(st, z3.Contains(s.z, z3.Unit(x)), 'ValueError', 'list.index of missing item', node)
